@@ -66,7 +66,12 @@ pub fn project_state(m: &Module) -> AbsModule {
     for f in m.funcs.iter() {
         let imported = matches!(f.kind, FunctionKind::Import(_));
         let nparams = m.types.get(f.ty()).params().len() as u32;
-        place(&mut s.funcs, f.id().index(), AbsFunc { idx: f.id().index() as u32, imported, ty: f.ty().index() as u32, sig: sig(m, f.ty()), nparams, ..Default::default() }, &dead_f);
+        // the entities the body names (by arena id), as a visitor sees them
+        let refs: Vec<(String, u32)> = match &f.kind {
+            FunctionKind::Local(lf) => crate::edits::body_refs(lf).into_iter().map(|(sp, id)| (sp, id as u32)).collect(),
+            _ => vec![],
+        };
+        place(&mut s.funcs, f.id().index(), AbsFunc { idx: f.id().index() as u32, imported, ty: f.ty().index() as u32, sig: sig(m, f.ty()), nparams, refs: refs.clone(), live_refs: refs, ..Default::default() }, &dead_f);
     }
     let dead_t = AbsTable { ty: "dead".into(), init: none(), ..Default::default() };
     for t in m.tables.iter() {
